@@ -86,6 +86,16 @@ CLAIMED = {
         note="Does not decide that equal signatures mean the same violation for a user. " + TRUST,
         design_ref="DESIGN.md §3 C33",
     ),
+    "C24": dict(
+        technique="static analysis: sibling cross-check of the three render->pack->lint sites by def-use provenance; attribute-read closure for the worker's rebuilt Linter; order-insensitivity of result assembly; exact shape of config pickling; exception-funnel agreement",
+        text="Decides that the serial path, the deferred-in-main path and the worker path perform the same render_file(task filename, runner root config) -> "
+        "get_rulepack(config=rendered.config) -> lint_rendered(.., task fix flag) sequence; that the Linter rebuilt in a worker receives every constructor input "
+        "the methods called on it read (config, user rules, templater re-created from the same config); that lint_paths files results by their own path, sorts "
+        "records and reads the skip counter after the stream; that pickling a config drops only the plugin manager and templater object on copies; and that every "
+        "catch-all in the runners feeds one funnel which re-raises I/O and user errors.",
+        note="Does not decide equality of results under real process scheduling, nor pickling fidelity of arbitrary config values. " + TRUST,
+        design_ref="DESIGN.md §3 C24",
+    ),
     "C25": dict(
         technique="static analysis: path-spelling kind inference (abstract interpretation over discovery.py) + CFG must-guard + def-use",
         text="Decides that no comparison in file discovery mixes an absolutised path with a caller-spelled path (the exact condition "
